@@ -26,7 +26,9 @@ AllProofs == {"valid", "valid_old_edge", "valid_new_edge", "valid_second_key", "
 AllInners == {"absent", "stub_ok", "stub_ve", "stub_miss", "stub_pe", "stub_down", "bearer_good", "bearer_bad",
               "bearer_none"}
 Modes == {"allow", "require"}
-Kinds == {"unary", "producer"}
+\* "exchange": a two-request call -- the stream is opened under the identity Compose predicts for the case, and the
+\* judged request is the following exchange turn (every HTTP turn of a stream is authenticated anew)
+Kinds == {"unary", "producer", "exchange"}
 
 Verified(c) == c.proof \in {"valid", "valid_old_edge", "valid_new_edge", "valid_second_key"}
                \/ (c.proof = "replayed" /\ ~c.cache)          \* without a cache only the timestamp bounds replay
@@ -38,7 +40,8 @@ InnerOut(c) == CASE c.inner \in {"stub_ok", "bearer_good"} -> "accept"
 
 Cases == {c \in [mode : Modes, cache : Caches, inner : Inners, proof : Proofs, wrap : Wraps, kind : Kinds] :
             /\ (c.wrap = "inner_chain" => c.inner # "absent")
-            /\ (c.wrap = "outer_chain_acc" => (c.kind = "unary" /\ c.inner # "absent"))}
+            /\ (c.wrap = "outer_chain_acc" => (c.kind = "unary" /\ c.inner # "absent"))
+            /\ (c.kind = "exchange" => c.wrap = "plain")}
 
 \* ---------------------------------------------------------------- outcomes
 \* [status, run, auth (authenticated seen by the method), who ("none" | "proxy" | "alice" | "bob"), inner (consulted?)]
@@ -106,7 +109,7 @@ Conforms(c, o) ==
 
 \* ---------------------------------------------------------------- a gate can never be placed inside an OR chain
 GateKinds == {"proof_allow", "proof_require", "custom_gate", "gate_subclass"}
-ChainCases == {c \in [n : 1..3, pos : 0..3, gate : GateKinds] : c.pos <= c.n}      \* pos = 0: control without a gate
+ChainCases == {c \in [n : 1..4, pos : 0..4, gate : GateKinds] : c.pos <= c.n}      \* pos = 0: control without a gate
 ChainExpected(c) == [constructible |-> c.pos = 0]
 (* o = [constructed: chain_authenticate returned a callable, raised: exception type name or ""] *)
 ChainConforms(c, o) ==
